@@ -182,26 +182,30 @@ unsafe fn level_swap<M: Manager>(
             .collect();
 
         drop(grandchildren);
-        for child in children {
-            // Revisit the "old" children of `e`. If these are the only
-            // children, we may remove them, if they are on the old lower level.
-            // (A child might also be at some lower level, in which case the
-            // node could also be removed. However we must not access such a
-            // node.)
-            if let Node::Inner(child_node) = manager.get_node(&*child)
-                && child_node.level() == lower_no_pre
-                && child_node.ref_count() == 1
-            {
-                // The reference stems from the old `node`, whose children
-                // we replace below. Hence, we can remove child node.
-                upper.remove(child_node);
-            }
-        }
+        drop(children);
 
         for (i, child) in new_children.into_iter().enumerate() {
             // SAFETY: we have exclusive access to all nodes at the old upper
             // level and no child is borrowed.
-            manager.drop_edge(unsafe { node.set_child(i, child) });
+            let old_child = unsafe { node.set_child(i, child) };
+            // Revisit the "old" child of `e`. If `e` held the only reference
+            // (apart from the unique table), we may remove the child node,
+            // provided that it is on the old lower level. (A child might also
+            // be at some lower level, in which case the node could also be
+            // removed. However we must not access such a node.)
+            if let Node::Inner(child_node) = manager.get_node(&old_child)
+                && child_node.level() == lower_no_pre
+                && child_node.ref_count() == 1
+            {
+                // `drop_edge()` must not be called for the last reference to a
+                // node, so we drop our edge while the node is still in the
+                // unique table and remove (and thereby free) the node
+                // afterwards.
+                manager.drop_edge(old_child);
+                upper.remove(child_node);
+            } else {
+                manager.drop_edge(old_child);
+            }
         }
         // The node stays at the upper level. All other nodes there carry
         // `lower_no_pre` as their (not yet updated) level number, and later
